@@ -235,9 +235,11 @@ MANIFEST_TEXT = {
         technique="Lean 4 proof (decode then encode = identity on accepted strings) + differential correspondence"),
     "C06": dict(
         text="Lean theorems C06_dec_spec / C06_enc_spec: for all 30 MAC payload types, every byte string and every in-range value, the model codec equals a table-driven "
-             "bit-layout specification (RFU bits ignored on receive, zero on transmit); C06_registry: the registry regenerated from /repo equals the specification's (CID, direction) table. "
-             "The model is tied to the Go code by differential runs (exhaustive for 1-byte payloads); every Go result is also judged directly against the specification.",
-        note="Trusted: Lean kernel; the hand-transcribed layout tables (LW/Spec/Mac.lean); the harness/driver comparison. Frame headers / join payloads / CFList are compared against the spec at run time and proved in C01/C08 as round trips; their layout theorems are work in progress.",
+             "bit-layout specification (RFU bits ignored on receive, zero on transmit); C06_registry: the registry regenerated from /repo equals the specification's (CID, direction) table; "
+             "C06_frame_layout / C06_frame_decode / C06_frame_fields: MHDR, FHDR / FCtrl (DevAddr | FCtrl bits | FCnt as one 56-bit little-endian integer), join-request, join-accept (DLSettings bits, RxDelay, both CFList kinds), "
+             "rejoin-requests and the PHYPayload framing equal the layout tables of LW/Spec/Layout.lean, written with the same generic pack as the MAC commands: the encoder produces the table's bytes, these bytes decode to the frame, and every accepted byte string is the layout of what it decodes to. "
+             "The model is tied to the Go code by differential runs (exhaustive for 1-byte payloads, all 256 FCtrl / MHDR bytes); every Go result - MAC payloads and frames, both directions - is also judged directly against the specification.",
+        note="Trusted: Lean kernel; the hand-transcribed layout tables (LW/Spec/Mac.lean, LW/Spec/Layout.lean); the harness/driver comparison. At frame level FOpts / FRMPayload enter as the byte strings their own layouts give.",
         technique="Lean 4 proof (model = layout spec) + differential correspondence with the Go code"),
     "C07": dict(
         text="Lean theorems: C07_lossless (encode ok => decode gives the same value, all 30 payload types over their FULL Go field domains), C07_accepts (every in-spec value is accepted), "
